@@ -455,6 +455,29 @@ def run(ctx):
             ctx.violation('tie of C05 (Gen/Helpers.v vs abelian_core.py) no longer checks', {'broken': tb}, found_input=False)
     # ---- END tie-helpers block
 
+    # ---- BEGIN fusegen block (harness/tie_fusegen.py, own shard and imports): the GENERATED calc_fuse_block_info /
+    #      _fuse_blocks_via_insert of Gen/FuseGen.v (tr/gen_fuse.py, Props/C05i.v) vs the implementation, called
+    #      directly (no fuse cache in front of it), on the arrays and groups generated above
+    try:
+        import tie_fusegen
+        old_cache = ac._fuseinfo_cache_maxsize
+        ac._fuseinfo_cache_maxsize = 0
+        try:
+            fg = tie_fusegen.tie(ctx, sr, concat_cases)
+        finally:
+            ac._fuseinfo_cache_maxsize = old_cache
+    except Exception as e:
+        fg = ['tie of Gen/FuseGen.v could not be evaluated: %s: %s' % (type(e).__name__, e)]
+    st = ctx.extra.get('tie_fusegen', {})
+    ctx.extra['tie']['fusegen_info_cases'] = st.get('info_cases', 0)
+    ctx.extra['tie']['fusegen_insert_cases'] = st.get('insert_cases', 0)
+    if fg:
+        ctx.broken += fg
+        if not ctx.violations:
+            ctx.violation('tie of C05 (Gen/FuseGen.v vs calc_fuse_block_info / _fuse_blocks_via_insert) no longer checks',
+                          {'broken': fg}, found_input=False)
+    # ---- END fusegen block
+
 # ------------------------------------------------------------------ replay
 def _fuse_all_ways(x, groups):
     """fuse with both strategies, cache on and off; returns (results, failures)"""
